@@ -397,7 +397,9 @@ impl ErrCase {
         let http = |_r: HttpRequest| -> Result<HttpResponse, FakeErr> {
             *calls.borrow_mut() += 1;
             if *calls.borrow() == 1 {
-                Ok(response(self.status, Some(b"application/json"), body))
+                // on a non-200 reply the Content-Type decides nothing (the body is read as an error document whatever it says)
+                let ct: Option<&[u8]> = [Some(&b"application/json"[..]), None, Some(&b"application/json;charset=UTF-8"[..]), Some(&b"text/html"[..])][((self.style >> 7) % 4) as usize];
+                Ok(response(self.status, ct, body))
             } else {
                 // only the device poll loop asks again (after authorization_pending / slow_down)
                 Ok(response(400, Some(b"application/json"), br#"{"error":"expired_token"}"#))
